@@ -1609,6 +1609,11 @@ class ACCParallelTrans(ParallelRegionTrans):
         :param bool options["default_present"]: this flag controls if the
             inserted directive should include the default_present clause.
 
+        :raises TransformationError: if the default_present option is not
+            a boolean.
+        :raises TransformationError: if the nodes are already within, or
+            contain, an OpenACC parallel or kernels region.
+
         '''
         super().validate(node_list, options)
         if options is not None and "default_present" in options:
@@ -1617,6 +1622,24 @@ class ACCParallelTrans(ParallelRegionTrans):
                     f"The provided 'default_present' option must be a "
                     f"boolean, but found '{options['default_present']}'."
                 )
+        # OpenACC compute constructs cannot be nested.
+        node_list = self.get_node_list(node_list)
+        enclosing = node_list[0].ancestor((ACCParallelDirective,
+                                           ACCKernelsDirective))
+        if enclosing:
+            raise TransformationError(
+                f"Cannot enclose the supplied node(s) within an OpenACC "
+                f"parallel region because they are already within an "
+                f"OpenACC compute region "
+                f"('{enclosing.begin_string()}').")
+        for node in node_list:
+            enclosed = node.walk((ACCParallelDirective, ACCKernelsDirective))
+            if enclosed:
+                raise TransformationError(
+                    f"Cannot enclose the supplied node(s) within an OpenACC "
+                    f"parallel region because they already contain an "
+                    f"OpenACC compute region "
+                    f"('{enclosed[0].begin_string()}').")
 
     def apply(self, target_nodes, options=None):
         '''
